@@ -183,3 +183,31 @@ Theorem c03_rtsp_conn_end_pinned_refuted :
     exists g, get_group (cs_base cs) s = Some g /\ stat_pub g = Some m.
 Proof. exact conn_end_refuted_unrepaired. Qed.
 Print Assumptions c03_rtsp_conn_end_pinned_refuted.
+
+(* An RTMP connection is one session, and a session publishes or plays once.  A further publish / play
+   command on the connection of an admitted RTMP session is refused; its whole effect is the departure
+   of that session from the stream it was admitted to - the stream and the kind of the refused command
+   play no part (pkg/rtmp/server_session.go doPublish / doPlay: the guard comes before anything of the
+   command is recorded). *)
+Theorem c03_rtmp_second_command : forall fsh fx cf cs s pb n x,
+  find_sess n (st_sess (cs_base cs)) = Some x -> (s_kind x = KRtmpPub \/ s_kind x = KRtmpSub) ->
+  s_acc x = true -> s_gone x = false -> s_closed x = false ->
+  let '(cs1, r, ns) := cstep fsh fx cf cs (CRtmpCmd s n pb) in
+  r = RRef /\
+  cs_base cs1 = fst (fst (step fx cf (cs_base cs) (EGone n))) /\ ns = snd (step fx cf (cs_base cs) (EGone n)) /\
+  cs_conns cs1 = cs_conns cs /\
+  vsess (cs_base cs1) n = Some (s_kind x, s_stream x, true, true).
+Proof. exact rtmp_cmd_departs. Qed.
+Print Assumptions c03_rtmp_second_command.
+
+(* ... so after any history such a command leaves the session listed by the stat of no stream (and,
+   by c03_rtsp_conn_notifications, with its stop notified: its word is start;stop) *)
+Theorem c03_rtmp_second_command_unlisted : forall fsh cf h s pb n x,
+  let cs := fst (crun fsh fixed_tree cf init_cstate h) in
+  find_sess n (st_sess (cs_base cs)) = Some x -> (s_kind x = KRtmpPub \/ s_kind x = KRtmpSub) ->
+  s_acc x = true -> s_gone x = false -> s_closed x = false ->
+  let cs1 := fst (crun fsh fixed_tree cf init_cstate (h ++ [CRtmpCmd s n pb])) in
+  vsess (cs_base cs1) n = Some (s_kind x, s_stream x, true, true) /\
+  forall s' g, get_group (cs_base cs1) s' = Some g -> stat_pub g <> Some n /\ ~ In n (stat_subs g).
+Proof. exact rtmp_cmd_unlisted. Qed.
+Print Assumptions c03_rtmp_second_command_unlisted.
